@@ -66,6 +66,8 @@ type Input struct {
 	Fault      *FaultJ   `json:"fault"`
 	Status     string    `json:"status"` // non-empty: observe `layercake status <layer>`
 	Live       bool      `json:"live"`   // real helper processes on the real /proc instead of a fake tree
+	LiveProcs  []LiveJ   `json:"live_procs"`
+	Churn      int       `json:"churn"` // live: further scan rounds while other processes are created and reaped
 }
 
 func (t *Tgt) str(layersdir string) string {
